@@ -21,3 +21,5 @@ open SteelVerif.C17
 #print axioms example_delivered
 #print axioms example_native_nested
 #print axioms native_backedges_listed
+#print axioms trampoline_calls_once
+#print axioms iteration_errors_propagate
